@@ -112,6 +112,9 @@ func TestDrive(t *testing.T) {
 	case "render":
 		e.Exec = safely(func(op string) string { return execPure(strings.Split(op, "\t")) })
 		RenderCases(e, r, tier)
+	case "clientauth":
+		e.Exec = safely(func(op string) string { return execPure(strings.Split(op, "\t")) })
+		ClientAuthCases(e, r, tier)
 	case "hist":
 		nh := envInt("FZ_HISTORIES", 40)
 		if tier == "thorough" {
@@ -145,6 +148,8 @@ func execPure(f []string) string {
 		return execRedirect(f)
 	case "render":
 		return execRender(f)
+	case "clientauth":
+		return execClientAuth(f)
 	}
 	return "bad-op"
 }
